@@ -843,7 +843,8 @@ func genCompPlan(r *rand.Rand, faults bool) *CompPlan {
 		p.Destroy = []string{"cache-first", "logger-first"}[r.IntN(2)]
 	}
 	if faults {
-		p.PersistAt = 1 + r.IntN(1500)
+		// the short-write offset is enumerated by run index, so a batch covers every byte of the file
+		p.PersistAt = 1 + int(currentSeed&0xffffffff)/2%1400
 	} else if r.IntN(2) == 0 {
 		// back-to-back accepted changes of the same settings
 		p.Rapid = true
